@@ -103,6 +103,7 @@ def run(tier):
         inplace.run(chk, 'C17.inplace', prog, cfgname)
         inplace.match_count_rule(chk, 'C17.count', prog, cfgname)
         inplace.heap_rules(chk, 'C17.heap', prog, cfgname)
+        inplace.ldperm_copyout_rule(chk, 'C17.copyout', prog, cfgname)
         from ..rules import lints as _lints
         _lints.inclusive_do_loop_rule(chk, 'C17.doloop', prog, cfgname)
         inplace.heap_position_typestate(chk, 'C17.state', prog, cfgname)
